@@ -50,8 +50,8 @@ def sig_hash(sig):
     return hashlib.sha256(canonical(sig).encode()).hexdigest()[:12]
 
 
-def violation(prop, rule, detail="", step=None, **sig):
-    s = {"property": prop, "rule": rule}
+def violation(prop_id, rule, detail="", step=None, **sig):
+    s = {"property": prop_id, "rule": rule}
     s.update({k: v for k, v in sig.items() if v is not None})
     return {"sig": s, "hash": sig_hash(s), "detail": str(detail)[:600], "step": step}
 
